@@ -139,7 +139,10 @@ func VH_C14_Switches() {
 	*w.s.conf.API.DeleteEnabled = del
 	*w.s.conf.API.Blob.DeleteEnabled = blobDel
 	*w.s.conf.Storage.ReadOnly = ro
-	digs := []digest.Digest{w.dConf, w.dLayer, w.dOther, w.dImg1, w.dImg2, w.dArt1, w.dIdx1}
+	digs := []digest.Digest{w.dLayer, w.dOther, w.dImg1, w.dArt1}
+	if vh.Param("FULLSNAP", 0) == 1 {
+		digs = []digest.Digest{w.dConf, w.dLayer, w.dOther, w.dImg1, w.dImg2, w.dArt1, w.dIdx1}
+	}
 	snap := func() string {
 		s := vhSnapshot(w.s, []string{"a", "b"}, digs, []string{"t1", "ti", "new"})
 		*w.s.conf.API.PushEnabled = true
